@@ -136,6 +136,7 @@ def r3_gated(ctx):
     oks = [bb for bb, j, st in b.all_assigns() if st['lhs'] == {'l': 0} and st['rv']['k'] == 'agg' and st['rv'].get('var') == 'Ok']
     ctx.need('C08.R3', 'Ok(..) return of App::build', oks)
     n = 0
+    mp = may_push(ctx)
     for bb, t in b.calls():
         if callee(t) == SINK + 'has_errored' or not any('DiagnosticSink' in a for a in t['aty']):
             continue
@@ -144,6 +145,8 @@ def r3_gated(ctx):
         c = callee(t) or '?'
         if c.startswith(('core::ops::try_trait::', 'core::convert::', 'core::clone::')):
             continue        # `?` / conversions carrying the sink along are not passes
+        if strip_generics(c).startswith('pavexc::') and strip_generics(c) not in mp and ctx.fb.bodies_of_item('pavexc', strip_generics(c)):
+            continue        # a function of pavexc that cannot reach DiagnosticSink::push (a reader such as `len`) reports nothing: there is nothing to gate
         n += 1
         leak = set(oks) & b.reachable(b.succ(bb), avoid=gates)
         ctx.ob('C08.R3', 'gated|%s' % c.replace(PX, '').replace('analyses::', ''), not leak, b.loc(bb, t),
